@@ -81,6 +81,11 @@ def gen_desc(seed, nsched):
     base = None
     if rng.random() < 0.3:
         base = {"rule": {"global": {"indent_size": rng.choice([2, 3, 4])}}}
+    if rng.random() < 0.25:
+        g = workload.random_group_config(rng, runner.RULES)
+        if g:
+            base = base or {"rule": {}}
+            base["rule"]["group"] = g
     if rng.random() < 0.5:
         # documented option values for a handful of rules (the same in the reference and in every schedule)
         base = base or {"rule": {}}
